@@ -11,6 +11,13 @@ ASSUMPTIONS = ['library writes are distinguished from application writes by the 
 
 def make(rng, lens):
     sc = Scenario([], prate=0, autopong=rng.random() < 0.8)
+    peer, extra = None, b''
+    if rng.random() < 0.3:
+        # permessage-deflate negotiated: Pings also arrive between the fragments of COMPRESSED messages
+        from refcodec import DeflatePeer
+        peer = DeflatePeer()
+        extra = b'Sec-WebSocket-Extensions: permessage-deflate\r\n'
+        sc.compress = True
     frames = []
     sent_pings = []        # payloads of the Pings the (valid) stream contains, in order
     n = rng.randint(1, 12)
@@ -20,7 +27,7 @@ def make(rng, lens):
             p = gen_core.rand_bytes(rng, rng.choice(lens))
             frames.append(server_frame(9, p)); sent_pings.append(p)
         elif r < 0.7:
-            it = gen_core.gen_item(rng)
+            it = gen_core.gen_item(rng, gen_core.SMALL_SIZES, peer)
             if it.frags and len(it.frags) > 1:
                 it.between = [[gen_core.Item('ping', gen_core.rand_bytes(rng, rng.choice(lens))) for _ in range(rng.choice([1, 2]))] for _ in it.frags[:-1]]
                 sent_pings += [x.payload for grp in it.between for x in grp]
@@ -37,7 +44,7 @@ def make(rng, lens):
         frames.append(server_frame(8, close_payload(1000, b'')))
         frames.append(server_frame(9, b'after-close'))
         sent_pings.append(b'after-close')      # still handed to the application as an event (no Pong: the connection is closing)
-    data = sc.good_reply() + b''.join(frames)
+    data = sc.good_reply(extra) + b''.join(frames)
     sc.env = reads(limit_chunks(cut(data, random_cuts(rng, len(data), rng.choice([0, 0, 2, 6]))))) + [('wait', 1, ('eof',))]
     if rng.random() < 0.5:
         sc.reactions = gen_core.gen_reactions(rng, 16, density=0.3, allow_bad=rng.random() < 0.5)
